@@ -5,7 +5,11 @@ import SJ.Props.C03
 #print axioms SJ.Props.C03.c03_no_underflow
 #print axioms SJ.Props.C03.c03_hints
 #print axioms SJ.Props.C03.c03_value
-#print axioms SJ.Props.C03.c03_display_partial
+#print axioms SJ.Props.C03.c03_display_adapter
+#print axioms SJ.Props.C03.c03_display
+#print axioms SJ.Props.C03.c03_display_fault
+#print axioms SJ.Props.C03.c03_display_utf8_safe
+#print axioms SJ.Props.C03.c03_display_number
 #print axioms SJ.Props.C03.c03_utf8_fragments
 #print axioms SJ.Props.C03.c03_recognise_sound
 #print axioms SJ.Props.C03.c03_utf8
